@@ -51,6 +51,7 @@ void VH_FN(std::map<std::string, std::vector<fmm::Segment>>& out) {
     out["c09"].push_back(fmm::c09SeqSegment<E>(VH_PER ? 20 : 50, VH_PER ? 600 : 2500));
 #if VH_PER
     out["c10"].push_back(fmm::c10Segment<E>(D == 3 ? 45 : 36, D == 3 ? 700 : 1000));
+    out["c08"].push_back(fmm::c08PeriodicSegment<E>(D == 3 ? 10 : 8, D == 3 ? 150 : 200));
 #endif
 }
 #endif
